@@ -333,6 +333,8 @@ fn safe_text() -> BoxedStrategy<String> {
 	// option values: no leading '-', no NUL
 	prop_oneof![
 		3 => "[A-Za-z0-9 ._]{1,16}",
+		// values that read like syntax: attribute assignments, paths, quotes, escapes
+		1 => prop::sample::select(vec!["CN=device-17", "cn=x", "/CN=host", "O=Acme,CN=www", "CN=", "a=b", "x+y", "\"quoted\"", "a\\,b", "#0c0141", " lead", "trail ", "a,b;c", "<cn>"]).prop_map(|s| s.to_string()),
 		1 => "[a-zäöüßéñ中文 ]{1,10}",
 		1 => gen::text_for(StrKind::Utf8, 10),
 	]
@@ -370,6 +372,8 @@ fn san_value() -> BoxedStrategy<String> {
 		2 => any::<[u8; 4]>().prop_map(|b| format!("{}.{}.{}.{}", b[0], b[1], b[2], b[3])),
 		2 => any::<[u16; 8]>().prop_map(|w| std::net::Ipv6Addr::new(w[0], w[1], w[2], w[3], w[4], w[5], w[6], w[7]).to_string()),
 		2 => prop::sample::select(vec!["::1", "::", "1.2.3.4", "2001:db8::1", "::ffff:10.0.0.1", "localhost", "1.2.3", "1.2.3.4.5", "256.1.1.1", "01.2.3.4", "::g", "1.2.3.4:80", "[::1]", "a", "*.example.com", "xn--bcher-kva.example"]).prop_map(|s| s.to_string()),
+		// names that look like other name forms: every one of them is "everything else", a DNS name
+		1 => prop::sample::select(vec!["spiffe://example.org/ns/prod", "x://", "https://example.com/", "mailto:a@example.com", "user@example.com", "DNS:example.com", "IP:1.2.3.4", "URI:x", "email:a@b", "example.com.", "2001:DB8::G", "0x7f.0.0.1", "1.2.3.4/24", "fe80::1%eth0"]).prop_map(|s| s.to_string()),
 	]
 	.boxed()
 }
